@@ -359,7 +359,7 @@ func runPair(ephA, seedA, ephB, seedB []byte) (ra, rb hsResult, wab, wba *wire, 
 		ca <- hsResult{sc, err}
 	}()
 	// A draws its ephemeral key before it writes: wait for its first message
-	deadline := time.Now().Add(10 * time.Second)
+	deadline := time.Now().Add(60 * time.Second)
 	for wab.logLen() < 35 && time.Now().Before(deadline) {
 		time.Sleep(20 * time.Microsecond)
 	}
@@ -368,7 +368,7 @@ func runPair(ephA, seedA, ephB, seedB []byte) (ra, rb hsResult, wab, wba *wire, 
 		cb <- hsResult{sc, err}
 	}()
 	got := 0
-	to := time.After(20 * time.Second)
+	to := time.After(90 * time.Second)
 	for got < 2 {
 		select {
 		case ra = <-ca:
